@@ -49,6 +49,21 @@ def play_config(story, cseed, config, scratch):
     return sess, end
 
 
+def has_external_call(path):
+    """Does the compiled document contain a call of an external function (an object with the key "x()")?
+    An EXTERNAL declaration that is never called leaves nothing in the document, so nothing can be missing."""
+    def walk(o):
+        if isinstance(o, dict):
+            return "x()" in o or any(walk(v) for v in o.values())
+        if isinstance(o, list):
+            return any(walk(v) for v in o)
+        return False
+    try:
+        return walk(json.load(open(path, encoding="utf-8-sig")))
+    except Exception:
+        return True
+
+
 def one_case(job):
     story, cseed, scratch = job
     res = {"origin": story["origin"], "corr": None, "violations": [], "digest": None, "nontrivial": False,
@@ -121,8 +136,8 @@ def one_case(job):
             res["violations"].append(({"story": desc, "config": cfg,
                                        "why": "a look-ahead-safe function was refused inside a string"},
                                       {"kind": "safe-refused"}))
-    # unbound without fallbacks: the first continue fails with an error (not a panic), if the story has externals
-    if exts:
+    # unbound without fallbacks: the first continue fails with an error (not a panic), if the story calls an external anywhere
+    if exts and has_external_call(story["path"]):
         sb, _ = runs["unbound"]
         first = next((r for op, r in zip(sb.ops, sb.results) if op == ["cont"]), None)
         if first is not None and first.get("r") != "err":
@@ -145,7 +160,7 @@ def probe_timing(ctx):
         return
     for safe in (False, True):
         ops = [["new", dst], ["seed", 1, 0], ["fuel", 5000], ["bind", "f", "f", safe, {"count": True}]]
-        ops += [["cont"]] * 8
+        ops += [["cont"], ["tags"]] * 11
         rr = play.run_rt_script(ops, ctx.scratch, tag="c12probe")
         rm = play.run_model(ops, ctx.scratch, tag="c12probem")
         d = play.first_diff(ops, rr, rm)
@@ -157,12 +172,16 @@ def probe_timing(ctx):
         events = [e for r in rr for e in (r.get("ev") or []) if e and e[0] == "ext"]
         ctx.case(f"probe-{safe}", True)
         if not safe:
-            ok = ("1 second." in text and "Line four 3." in text and "4 glued." in text and len(events) == 4)
+            tags = [t for op, r in zip(ops, rr) if op == ["tags"] for t in (r.get("v") or [])]
+            ok = ("1 second." in text and "Line four 3." in text and "4 glued." in text and len(events) == 6
+                  and tags == ["5mark", "tail 6"])
             # every call k happens when exactly the lines before its own line have been delivered
             delivered = [e[4] for e in events]
             # call 1 belongs to line 2 (1 line delivered), call 2 follows line 3, call 3 is inside line 4,
             # call 4 follows "Line five." which an unsafe function cuts off from the glue
-            ok = ok and delivered == sorted(delivered) and delivered[0] >= 1 and delivered[1] >= 3 and delivered[2] >= 3
+            # call 5 opens the tag line after "Line six." (6 lines delivered), call 6 is inside the tag of line eight
+            ok = ok and delivered == sorted(delivered) and delivered[0] >= 1 and delivered[1] >= 3 and delivered[2] >= 3 \
+                and delivered[4] >= 6 and delivered[5] >= 7
             if not ok:
                 ctx.violation("oracle", {"probe": "corpus/c12/timing.ink", "safe": safe, "lines": lines,
                                          "events": events,
